@@ -571,7 +571,11 @@ def rule_use(fx, rep):
                             return bool(find_calls(z, "TimeStrategy::elapsed", "Instant::elapsed"))
                         def is_limit(z):
                             if what == "payload":
-                                return isinstance(z, tuple) and z[0] == "field" and z[2] == "0" and isinstance(z[1], tuple) and z[1][0] == "as" and z[1][2] == arm
+                                if isinstance(z, tuple) and z[0] == "field" and z[2] == "0" and isinstance(z[1], tuple) and z[1][0] == "as" and z[1][2] == arm:
+                                    return True
+                                # ... or the stored limit of this function, which C14-EXACT shows to be the move time unchanged
+                                own = table["Clocks"][1]
+                                return isinstance(z, tuple) and z[0] == "field" and z[2] == own and z[1] == ("arg", 1, "self")
                             return isinstance(z, tuple) and z[0] == "field" and z[2] == what and z[1] == ("arg", 1, "self")
                         flip = {"Gt": "Lt", "Lt": "Gt", "Ge": "Le", "Le": "Ge"}
                         if is_elapsed(x) and is_limit(y):
